@@ -56,7 +56,8 @@ class ForLoop:
         start = e.start.value
         step = e.step.value
         stop = self.generator.get_integer(e.stop)
-        self.values = np.arange(start, stop + step, step, dtype=int)
+        # Modelica ranges include the stop value only if a step lands on it
+        self.values = np.arange(start, stop + (1 if step > 0 else -1), step, dtype=int)
         self.index_variable = _new_mx(i.name)
         self.name = i.name
         self.indexed_symbols = OrderedDict()
